@@ -494,20 +494,11 @@ fn main() {
                 ))
             }),
             ("composite", 4) | ("compositeo", 4) => guarded(|| {
-                // the call sequence of RenderedImage::blend (image.rs:727) and
-                // image::composite (image.rs:827..840)
+                // RenderedImage::blend's orientation step, then image::composite_region itself
                 let (ih, fh) = (&*st.hdr.image, st.hdr.frame.header());
                 let r = reg(&a)?;
                 let r = if w[0] == "composite" { vr::apply_orientation_to_image_region(ih, r) } else { r };
-                let r = r.translate(-fh.x0, -fh.y0).downsample(fh.lf_level * 3);
-                let r = vr::pad_lf_region(fh, r);
-                let r = vr::pad_color_region(ih, fh, r);
-                let r = r.upsample(fh.upsampling.ilog2());
-                let r = if fh.frame_type.is_normal_frame() {
-                    r.intersection(Region::with_size(ih.size.width, ih.size.height).translate(-fh.x0, -fh.y0))
-                } else {
-                    r
-                };
+                let r = vr::composite_region(ih, fh, r);
                 Some(show(r))
             }),
             ("blend", 19) => guarded(|| {
